@@ -501,6 +501,26 @@ func (g *Gen) genSC(op string) *world.SCAction {
 			amt = new(big.Int).Lsh(big.NewInt(1), uint(64+g.R.Intn(100)))
 		}
 		a.Amount = amt.String()
+	case "setrole-again":
+		var who []string
+		for _, addr := range sortedKeysRoles(t.Roles) {
+			if len(t.Roles[addr]) > 0 {
+				who = append(who, addr)
+			}
+		}
+		if len(who) == 0 {
+			return nil
+		}
+		addr := who[g.R.Intn(len(who))]
+		a.Addr = hx([]byte(addr))
+		for _, r := range sortedKeysBool(t.Roles[addr]) {
+			if g.R.Intn(2) == 0 {
+				a.Roles = append(a.Roles, r)
+			}
+		}
+		if len(a.Roles) == 0 {
+			a.Roles = sortedKeysBool(t.Roles[addr])[:1]
+		}
 	case "setrole", "unsetrole":
 		a.Addr = hx(g.anyAccount())
 		all := world.RolesForKind(t.Kind)
